@@ -94,9 +94,9 @@ claim(
     "C17",
     "Bounded model checking (Kani/CBMC) of turmoil-net's real bind/allocate/demultiplex code: Kernel::bind against a table with one "
     "existing binding (address from a 7-address pool incl. non-local, wildcard, loopback, v4/v6; port; symbolic type) equals the "
-    "reference accept/AddrInUse/AddrNotAvailable predicate, local_addr reports the binding and close frees it; port 0 yields the first "
-    "free port cyclically from the cursor that is not bound at any local address of the protocol; PortAllocator::allocate for all "
-    "range positions/cursors/occupancies of a 4-port range; UDP delivery over two bound sockets picks the exact binding before the "
+    "reference accept/AddrInUse/AddrNotAvailable predicate, local_addr reports the binding and close frees it; port 0 yields a port "
+    "of the range that is not bound at any local address of the protocol (which free port is not asserted); PortAllocator::allocate "
+    "returns a free port whenever one exists and None only on exhaustion, for all range positions/cursors/occupancies of a 4-port range; UDP delivery over two bound sockets picks the exact binding before the "
     "wildcard, never a socket of another port, and drops when nothing matches; an inbound TCP segment goes to the connection with "
     "the exact 4-tuple before the listener on the same port, a SYN for a 4-tuple without connection goes to the listener and a "
     "non-SYN without connection is answered with RST.",
@@ -258,8 +258,8 @@ claim(
 claim(
     "C15",
     "Bounded model checking (Kani/CBMC): the ephemeral port handed out by Host::assign_ephemeral_port is never one bound by a UDP "
-    "socket, a TCP listener or a live TCP stream (symbolic cursor and occupancy of a 4-port range, wrap-around included) and is the "
-    "first free port from the cursor; binding a port in use fails with AddrInUse per protocol while UDP and TCP listener spaces are "
+    "socket, a TCP listener or a live TCP stream and lies inside the range, for every position of the cursor and every occupancy of "
+    "a 4-port range that leaves a port free (wrap-around included; WHICH free port is chosen is not asserted); binding a port in use fails with AddrInUse per protocol while UDP and TCP listener spaces are "
     "independent; a port is assignable again after its stream is closed/reset; the address iterator is injective for ALL counters "
     "below 2^16 (IPv4) / 2^64 (IPv6) inside its subnet; names resolve to stable, pairwise distinct addresses with reverse lookup "
     "inverting the mapping and literal addresses passing through.",
